@@ -784,6 +784,9 @@ func RunCheck(id, tier string, seed uint64) int {
 	}
 	fmt.Printf("%s %s seed=%d: %d cases, %d distinct non-trivial, %d violation signature(s), %d inconclusive reason(s), %d known open finding(s), %.1fs -> %s\n",
 		id, tier, seed, total, agg.Distinct, len(sigs), len(agg.Inconclusive), knownOpen, time.Since(t0).Seconds(), verdict)
+	if len(fresh) > 0 {
+		return 1
+	}
 	if total == 0 || agg.Distinct < 2 {
 		fmt.Printf("INCONCLUSIVE property=%s reason=the run observed nothing (cases=%d distinct=%d)\n", id, total, agg.Distinct)
 		return 2
